@@ -21,6 +21,8 @@ type c12 struct{}
 
 func init() { Register(c12{}) }
 
+var valuateAmounts = []decimal.Decimal{decimal.NewFromInt(7), decimal.Zero, decimal.New(0, -2), decimal.New(-35, -1), decimal.New(1, -8), decimal.New(-123456789, -9)}
+
 func (c12) ID() string { return "C12" }
 
 func (c12) Gen(r *simrt.Rand, idx int, tier string) *Case {
@@ -190,9 +192,15 @@ func (c12) Eval(c *Case) (*Violation, bool) {
 			got.valErr = map[string]bool{}
 			for _, cm := range coms {
 				p, err := np.Price(reg.MustGet(cm))
-				_, err2 := np.Valuate(reg.MustGet(cm), decimal.NewFromInt(7))
-				if (err == nil) != (err2 == nil) {
-					got.insertErr = "Price and Valuate disagree about " + cm
+				// valuing fails exactly when there is no price, whatever the amount (zero and
+				// negative zero included), and otherwise is amount x price truncated to 8 decimals
+				for _, a := range valuateAmounts {
+					v, err2 := np.Valuate(reg.MustGet(cm), a)
+					if (err == nil) != (err2 == nil) {
+						got.insertErr = "Price and Valuate disagree about " + cm + " (amount " + a.String() + ")"
+					} else if err2 == nil && !v.Equal(a.Mul(p).Truncate(8)) {
+						got.insertErr = "Valuate(" + cm + ", " + a.String() + ") = " + v.String() + " with price " + p.String()
+					}
 				}
 				if err != nil {
 					got.valErr[cm] = true
